@@ -152,6 +152,8 @@ PREFIX_SPEC = '''requires old(self).rwf(),
             &&& cr.captured_v().is_prefix_of(p@)
             &&& p@.len() <= (if cr.captured_v().len() >= size_hint { cr.captured_v().len() } else { size_hint as nat })
             &&& (cr.captured_v().len() >= size_hint ==> p@ == cr.captured_v())
+            // C09: the request is honoured -- at least size_hint bytes, unless the source ended first (then the reader is marked complete)
+            &&& (p@.len() >= size_hint || (*final(self) matches Ref::Reader(cr2) && cr2.source_eof))
         }),'''
 
 CR_IMPL = r'\bimpl\s*<R>\s+CaptureReader\s*<R>'
